@@ -24,6 +24,7 @@ func runC18(r *fw.Run, p *fw.Program) {
 	c18CacheKey(r, p)
 	c18Shared(r, p)
 	c18Stateful(r, p)
+	c18Mapper(r, p)
 	// per-input jq state: the input file name is reset before each open (shared with C17.inputs)
 	c17InputFilenameResetAs(r, p, "C18.inputstate")
 }
@@ -467,6 +468,28 @@ func c18Once(r *fw.Run, p *fw.Program) {
 				okW := insideOnceDo(fn) || fn.Name() == "Format" && fn.Signature.Recv() != nil
 				ru.Check(okW, "write-Group.Formats:"+fw.ShortFn(fn), p.Rel(st.Pos()), "in Registry.Format (init time) or inside the Once closure", "decode.Group.Formats written outside Registry.Format / the resolve Once closure")
 			}
+		})
+	}
+	// reads of the resolved flag: only under the Once or in the registration method; a fast path
+	// `if r.formatResolved { return }` in front of the Once is an unsynchronised read racing with the Once body
+	for _, fn := range p.FqFunctions() {
+		if pkgRel(fn) != "pkg/interp" {
+			continue
+		}
+		fw.EachInstr(fn, func(ins ssa.Instruction) {
+			u, ok := ins.(*ssa.UnOp)
+			if !ok || u.Op != token.MUL {
+				return
+			}
+			fa, ok := u.X.(*ssa.FieldAddr)
+			if !ok || fieldNameOf(fa.X.Type(), fa.Field) != "formatResolved" {
+				return
+			}
+			if pt, ok := fa.X.Type().Underlying().(*types.Pointer); !ok || shortType(pt.Elem()) != "pkg/interp.Registry" {
+				return
+			}
+			okR := insideOnceDo(fn) || fn.Name() == "Format" && fn.Signature.Recv() != nil
+			ru.Check(okR, "read-formatResolved:"+fw.ShortFn(fn), p.Rel(u.Pos()), "inside the Once closure or in Registry.Format (registration)", "Registry.formatResolved is read outside the sync.Once closure: an unsynchronised fast path lets a goroutine use groups that another goroutine is still resolving and sorting")
 		})
 	}
 	// in-place sort of Formats only inside Once (sortFormats callers)
